@@ -4,7 +4,7 @@ from __future__ import annotations
 
 import ast
 
-from ..core import AnalysisError, const_value, norm, walk_own, walk_stmts
+from ..core import inlined, AnalysisError, const_value, norm, walk_own, walk_stmts
 
 
 class Model:
@@ -35,7 +35,7 @@ def build(ctx, rule):
                         continue
                     rets = [r for r in walk_own(callee.node) if isinstance(r, ast.Return) and isinstance(r.value, ast.Tuple)]
                     if len(rets) >= 2:
-                        m.run, m.loop, m.call_stmt, m.dec = f, loop, st, tail_inlined(repo, callee)
+                        m.run, m.loop, m.call_stmt, m.dec = f, loop, st, inlined(repo, tail_inlined(repo, callee))  # also `return _skipped(bo)`
                         m.run0 = mod.funcs[f.qualname]
     if m.run is None:
         raise AnalysisError(rule, mod.relpath, "cannot find the chromosome loop (for-loop unpacking the result of the per-component ordering function)")
@@ -43,6 +43,22 @@ def build(ctx, rule):
     ctx.analysed_func(m.dec)
     m.call = m.call_stmt.value
     m.targets = [norm(t) for t in m.call_stmt.targets[0].elts] if isinstance(m.call_stmt.targets[0], ast.Tuple) else [norm(m.call_stmt.targets[0])]
+    # `skipped = (None, ..., bo_start, None)` bound once and returned by name: read as the tuple
+    import copy as _copy
+
+    _defs = {}
+    for st_ in walk_own(m.dec.node):
+        if isinstance(st_, ast.Assign) and len(st_.targets) == 1 and isinstance(st_.targets[0], ast.Name):
+            _defs.setdefault(st_.targets[0].id, []).append(st_.value)
+    _tup = {k: v[0] for k, v in _defs.items() if len(v) == 1 and isinstance(v[0], ast.Tuple)}
+    if any(isinstance(r, ast.Return) and isinstance(r.value, ast.Name) and r.value.id in _tup for r in walk_own(m.dec.node)):
+        from ..core import Func as _Func
+
+        node_ = _copy.deepcopy(m.dec.node)
+        for r in ast.walk(node_):
+            if isinstance(r, ast.Return) and isinstance(r.value, ast.Name) and r.value.id in _tup:
+                r.value = _copy.deepcopy(_tup[r.value.id])
+        m.dec = _Func(m.dec.module, m.dec.qualname, ast.fix_missing_locations(node_), m.dec.cls, m.dec.parent)
     m.returns = [r for r in walk_own(m.dec.node) if isinstance(r, ast.Return)]
     arity = {len(r.value.elts) for r in m.returns if isinstance(r.value, ast.Tuple)}
     if len(arity) != 1 or any(not isinstance(r.value, ast.Tuple) for r in m.returns):
